@@ -43,11 +43,11 @@ type faultSpec struct {
 
 type faultResult struct {
 	K         int    `json:"k"`
-	File      []byte `json:"file"`        // store file bytes after the fault
-	SaveErr   bool   `json:"save_err"`    // the server logged "Failed to save credentials"
-	Leftovers int    `json:"leftovers"`   // other files left in the store directory
-	AckCode   int    `json:"ack_code"`    // status of the management request
-	NoSave    bool   `json:"no_save"`     // file unchanged and no error logged: the save was never attempted
+	File      []byte `json:"file"`      // store file bytes after the fault
+	SaveErr   bool   `json:"save_err"`  // the server logged "Failed to save credentials"
+	Leftovers int    `json:"leftovers"` // other files left in the store directory
+	AckCode   int    `json:"ack_code"`  // status of the management request
+	NoSave    bool   `json:"no_save"`   // file unchanged and no error logged: the save was never attempted
 	Err       string `json:"err,omitempty"`
 }
 
